@@ -134,7 +134,8 @@ def check_streams(c):
                     break
                 continue
             progress[o] = [queue.pop(0), 0, 0]
-            start(objs[o], name, progress[o][0]["params"])
+            if not progress[o][0].get("oneshot"):
+                start(objs[o], name, progress[o][0]["params"])
         st_, i, fed = progress[o]
         h = objs[o]
         if i < len(st_["pieces"]):
@@ -148,8 +149,15 @@ def check_streams(c):
         if st_["last"] is None:
             continue                 # abandoned: the next stream on this object starts with initstate()
         whole = b"".join(st_["pieces"]) + st_["last"]
-        got = guard(h.update, st_["last"], padding=True)
         exp = reference(name, whole, st_["params"])
+        if st_.get("oneshot"):
+            # the one-shot call on an object that was used for streaming before (possibly an abandoned stream)
+            p_ = st_["params"]
+            got = guard(h, whole) if name in MD else guard(h, whole, s=p_.get("salt", 0)) if name in BLAKES else guard(h, whole, **b2kwargs(p_))
+            if got != exp:
+                raise Violation("%s:streams:one-shot-after-streaming!=reference" % kindof(name), exp, got)
+            continue
+        got = guard(h.update, st_["last"], padding=True)
         if got != exp:
             raise Violation("%s:streams:piecewise!=reference" % kindof(name), exp, got)
 
@@ -166,8 +174,9 @@ def streams_strategy(tier):
             par = gen.pick((1, st.just({})), (1, gen.uint(1, full).map(lambda o: {"outlen": o})))
         else:
             par = st.just({})
-        stream = st.builds(lambda ps, l_, ab, p: {"params": p, "pieces": tuple(ps), "last": None if ab == 0 and ps else l_},
-                           st.lists(piece, min_size=0, max_size=3), gen.blob_of(gen.length(B, 1)), gen.uint(0, 3), par)
+        stream = st.builds(lambda ps, l_, ab, p: {"params": p, "pieces": () if ab == 1 else tuple(ps), "last": None if ab == 0 and ps else l_,
+                                                  "oneshot": ab == 1},
+                           st.lists(piece, min_size=0, max_size=3), gen.blob_of(gen.length(B, 1)), gen.uint(0, 4), par)
         return st.builds(lambda ss, sch: {"hash": name, "streams": tuple(ss) + ({"params": {}, "pieces": (bytes(B),), "last": b"end"},) * 2,
                                           "schedule": tuple(sch)},
                          st.lists(stream, min_size=2, max_size=4), st.lists(gen.uint(0, 1), min_size=0, max_size=16))
@@ -291,8 +300,9 @@ FACETS = [
     Facet("stream-sequences", check_streams, strategy=streams_strategy, budget={"quick": 800, "thorough": 15000},
           shards={"quick": 12, "thorough": 32}, nontrivial=lambda c: True,
           classify=lambda c: (kindof(c["hash"]), "has abandoned stream" if any(s_["last"] is None for s_ in c["streams"]) else "all finished",
+                              "has one-shot call on a streaming object" if any(s_.get("oneshot") for s_ in c["streams"]) else "streams only",
                               "interleaved" if len(set(c["schedule"])) > 1 else "one object at a time"),
-          rule="4..6 streams (0..3 pieces of 0..2 blocks + final piece, a quarter abandoned before the final piece) started one after the "
+          rule="4..6 streams (0..3 pieces of 0..2 blocks + final piece, a fifth abandoned before the final piece, a fifth replaced by a one-shot call) started one after the "
                "other with initstate() on TWO objects of one class that take turns by a generated schedule; every finished stream == "
                "independent reference, bit counter checked after every piece"),
     Facet("nilsimsa-cuts-exhaustive", check_nilsimsa, cases=nilsimsa_cases, exhaustive=True, distinct=True,
